@@ -44,6 +44,7 @@ class Bail(Exception):
 
 NONNULL_CONSTS = set()     # dumps of `constants.NAME` expressions whose value is a literal other than None (filled by the loader)
 CLASS_METHODS = {}    # class name (defined once in the package) -> {method: (params without self, number of defaults)}
+SENTINELS = {}            # modname -> names bound once, at module level, to a fresh `object()` (private markers)
 FOREIGN_HOME_MODULES = set()     # top-level module names of the package (filled by the loader)
 FOREIGN_FUNCS = {}    # module-level functions of top-level package modules, likewise (callers import them by name)
 FOREIGN = {}          # method name -> FunctionDef: methods of package classes (defined once in the whole package, not known to the rule tables,
@@ -143,7 +144,7 @@ def build_foreign(trees, known):
                 if isinstance(m, ast.AsyncFunctionDef):
                     continue
                 needs = _foreign_body_ok(m, t, True)
-                if needs is None or m.args.defaults:
+                if needs is None:
                     continue
                 m._sa_home = (modname, frozenset(needs))
                 out[m.name] = m
@@ -491,6 +492,10 @@ def _is_chain(e):
     return isinstance(e, ast.Name)
 
 
+_CUR_SENTINELS = set()      # the markers of the module being canonicalised
+_CUR_CLEAN_NAMES = set()    # names of the function being canonicalised that cannot hold a marker
+
+
 def _fold_test(t):
     """Constant sub-tests of a condition (a helper inlined with literal arguments: `'list' is None or path`) are evaluated; only
     the truth value of the whole matters.  Returns `t` itself when nothing changes."""
@@ -501,6 +506,21 @@ def _fold_test(t):
         if o is not t.operand:
             return ast.copy_location(ast.UnaryOp(op=ast.Not(), operand=o), t)
         return t
+    if isinstance(t, ast.Compare) and len(t.ops) == 1 and isinstance(t.ops[0], (ast.Is, ast.IsNot)) and _CUR_SENTINELS:
+        a, b = t.left, t.comparators[0]
+        sa_, sb_ = isinstance(a, ast.Name) and a.id in _CUR_SENTINELS, isinstance(b, ast.Name) and b.id in _CUR_SENTINELS
+        if sa_ or sb_:
+            if sa_ and sb_:
+                same = a.id == b.id
+            else:
+                other = b if sa_ else a
+                # the marker only ever enters a function as the default of a parameter (checked per module): a literal, or a name that is
+                # neither such a parameter nor assigned from one, cannot be it
+                same = False if isinstance(other, ast.Constant) or (isinstance(other, ast.Name) and other.id in _CUR_CLEAN_NAMES) else None
+            if same is not None:
+                return ast.copy_location(ast.Constant(value=same if isinstance(t.ops[0], ast.Is) else not same), t)
+    if isinstance(t, (ast.Tuple, ast.List)) and not any(isinstance(x, ast.Starred) for x in t.elts) and not any(_has_call(x) for x in t.elts):
+        return ast.copy_location(ast.Constant(value=bool(t.elts)), t)      # a display is true iff it has elements
     if isinstance(t, ast.Compare) and len(t.ops) == 1 and isinstance(t.left, ast.Constant) and isinstance(t.comparators[0], ast.Constant):
         a, b, op = t.left.value, t.comparators[0].value, t.ops[0]
         if isinstance(op, (ast.Is, ast.IsNot)) and (a is None or b is None or isinstance(a, bool) or isinstance(b, bool)):
@@ -816,6 +836,28 @@ class FuncCanon(object):
     def scan(self):
         self.params = set(_params(self.fn))
         self.captured = _names_captured(self.fn)
+        _CUR_CLEAN_NAMES.clear()
+        if _CUR_SENTINELS:
+            a = self.fn.args
+            tainted = set()
+            for prm, d in zip(reversed(a.args), reversed(a.defaults)):
+                if isinstance(d, ast.Name) and d.id in _CUR_SENTINELS:
+                    tainted.add(prm.arg)
+            names = set(self.params)
+            assigns = {}
+            for n, _ins in _fn_nodes(self.fn):
+                if isinstance(n, ast.Assign) and len(n.targets) == 1 and isinstance(n.targets[0], ast.Name):
+                    assigns.setdefault(n.targets[0].id, []).append(n.value)
+                elif isinstance(n, ast.Name) and isinstance(n.ctx, ast.Store):
+                    assigns.setdefault(n.id, [])
+            for _round in range(3):
+                for nm, vals in assigns.items():
+                    if nm in self.params:
+                        continue
+                    stores = [x for x, _i in _fn_nodes(self.fn) if isinstance(x, ast.Name) and x.id == nm and isinstance(x.ctx, ast.Store)]
+                    if len(stores) != len(vals) or any(any(isinstance(y, ast.Name) and (y.id in tainted or y.id in _CUR_SENTINELS) for y in ast.walk(v)) for v in vals):
+                        tainted.add(nm)
+            _CUR_CLEAN_NAMES.update(n for n in (set(self.params) | set(assigns)) if n not in tainted and n not in self.captured)
         self.stores, self.loads = {}, {}
         self.loop_stored = set()
         for st in ast.walk(self.fn):
@@ -2350,7 +2392,9 @@ class Inliner(object):
 
     def _inlinable_def(self, fn):
         a = fn.args
-        if a.vararg or a.kwarg or a.kwonlyargs or a.posonlyargs:
+        if a.kwarg or a.kwonlyargs or a.posonlyargs:
+            return False
+        if a.vararg and any(isinstance(n, ast.Name) and n.id == a.vararg.arg and isinstance(n.ctx, (ast.Store, ast.Del)) for n in ast.walk(fn)):
             return False
         decs = [_dec(d) for d in fn.decorator_list]
         if any(d not in ("staticmethod",) for d in decs):
@@ -2366,7 +2410,7 @@ class Inliner(object):
             if isinstance(n, ast.Call) and ((isinstance(n.func, ast.Attribute) and n.func.attr == fn.name) or (isinstance(n.func, ast.Name) and n.func.id == fn.name)):
                 return False
         for d in a.defaults:
-            if not isinstance(d, ast.Constant) and not (isinstance(d, ast.Attribute) and isinstance(d.value, ast.Name)):
+            if not isinstance(d, ast.Constant) and not (isinstance(d, ast.Attribute) and isinstance(d.value, ast.Name)) and not (isinstance(d, ast.Name) and d.id in SENTINELS.get(self.modname, ())):
                 return False
         return _size(fn.body) <= 40
 
@@ -2585,11 +2629,17 @@ class Inliner(object):
             ps = ps[1:]
         if any(isinstance(a, ast.Starred) for a in call.args) or any(k.arg is None for k in call.keywords):
             raise Bail("star arguments")
+        extra = []
         if len(call.args) > len(ps):
-            raise Bail("too many arguments")
+            if h.args.vararg is None:
+                raise Bail("too many arguments")
+            extra = list(call.args[len(ps):])
         b = {}
         for p, a in zip(ps, call.args):
             b[p] = a
+        if h.args.vararg is not None:
+            # *args of a call without star-arguments is the tuple of the surplus positional arguments
+            b[h.args.vararg.arg] = ast.copy_location(ast.Tuple(elts=extra, ctx=ast.Load()), call)
         for k in call.keywords:
             if k.arg not in ps or k.arg in b:
                 raise Bail("bad keyword")
@@ -2600,6 +2650,8 @@ class Inliner(object):
                 if p not in defaults:
                     raise Bail("missing argument")
                 b[p] = copy.deepcopy(defaults[p])
+        if h.args.vararg is not None:
+            ps = ps + [h.args.vararg.arg]
         return ps, b
 
     def _prepare(self, caller, call, h, recv, is_await):
@@ -2612,7 +2664,7 @@ class Inliner(object):
         body = copy.deepcopy(h.body)
         if body and isinstance(body[0], ast.Expr) and isinstance(body[0].value, ast.Constant) and isinstance(body[0].value.value, str):
             body = body[1:]
-        hp = [x.arg for x in h.args.args]
+        hp = [x.arg for x in h.args.args] + ([h.args.vararg.arg] if h.args.vararg is not None else [])
         local = set(hp)
         for st in body:
             for n in ast.walk(st):
@@ -2637,6 +2689,12 @@ class Inliner(object):
         for p in ps:
             a = b[p]
             if p not in stored_params and isinstance(a, ast.Constant):
+                direct[p] = a
+                continue
+            if p not in stored_params and isinstance(a, ast.Name) and a.id in SENTINELS.get(self.modname, ()):
+                direct[p] = a          # a module-level sentinel object: the name denotes the same object everywhere
+                continue
+            if p not in stored_params and h.args.vararg is not None and p == h.args.vararg.arg and isinstance(a, ast.Tuple) and not a.elts:
                 direct[p] = a
                 continue
             t = ast.Assign(targets=[ast.Name(id=ren[p], ctx=ast.Store())], value=a)
@@ -3073,6 +3131,52 @@ def struct_objects(trees, log=None):
 
 
 # ---------------------------------------------------------------------------------------------------------------------
+def _marker_well_behaved(tree, S):
+    """The marker S is only ever named as a parameter default and as an operand of `is` / `is not`; a parameter defaulting to S is read only in such
+    comparisons or inside `if p is not S:` blocks - so the marker never travels anywhere else."""
+    allowed = set()
+    for n in ast.walk(tree):
+        if isinstance(n, (ast.FunctionDef, ast.AsyncFunctionDef)):
+            for d in n.args.defaults + [x for x in n.args.kw_defaults if x is not None]:
+                if isinstance(d, ast.Name) and d.id == S:
+                    allowed.add(id(d))
+        elif isinstance(n, ast.Compare) and len(n.ops) == 1 and isinstance(n.ops[0], (ast.Is, ast.IsNot)):
+            for x in (n.left, n.comparators[0]):
+                if isinstance(x, ast.Name) and x.id == S:
+                    allowed.add(id(x))
+        elif isinstance(n, ast.Assign) and len(n.targets) == 1 and isinstance(n.targets[0], ast.Name) and n.targets[0].id == S:
+            allowed.add(id(n.targets[0]))
+    for n in ast.walk(tree):
+        if isinstance(n, ast.Name) and n.id == S and id(n) not in allowed:
+            return False
+    for fn in ast.walk(tree):
+        if not isinstance(fn, (ast.FunctionDef, ast.AsyncFunctionDef)):
+            continue
+        a = fn.args
+        marked = [prm.arg for prm, d in zip(reversed(a.args), reversed(a.defaults)) if isinstance(d, ast.Name) and d.id == S]
+        for q in marked:
+            ok_nodes = set()
+            for n in ast.walk(fn):
+                if isinstance(n, ast.Compare) and len(n.ops) == 1 and isinstance(n.ops[0], (ast.Is, ast.IsNot)):
+                    pair = (n.left, n.comparators[0])
+                    if any(isinstance(x, ast.Name) and x.id == S for x in pair):
+                        for x in pair:
+                            if isinstance(x, ast.Name) and x.id == q:
+                                ok_nodes.add(id(x))
+                if isinstance(n, ast.If) and isinstance(n.test, ast.Compare) and len(n.test.ops) == 1 and isinstance(n.test.ops[0], ast.IsNot) \
+                        and isinstance(n.test.left, ast.Name) and n.test.left.id == q and isinstance(n.test.comparators[0], ast.Name) and n.test.comparators[0].id == S:
+                    for st in n.body:
+                        for x in ast.walk(st):
+                            if isinstance(x, ast.Name) and x.id == q:
+                                ok_nodes.add(id(x))
+            for n in ast.walk(fn):
+                if isinstance(n, ast.Name) and n.id == q and isinstance(n.ctx, ast.Load) and id(n) not in ok_nodes:
+                    return False
+                if isinstance(n, ast.Name) and n.id == q and isinstance(n.ctx, (ast.Store, ast.Del)):
+                    return False
+    return True
+
+
 def _module_tables(tree, stats):
     """Module level: `T = {}` ; `for k in IT: T[k] = E`  ->  `T = {k: E for k in IT}`   (E does not read T; a following `del k` goes too) and
     `L = []` ; `for k in IT: L.append(E)`  ->  `L = [E for k in IT]`: constant tables built by a loop are the same tables."""
@@ -3189,6 +3293,17 @@ def canonicalise(tree, modname, known, stats=None, log=None):
             except Bail as e:
                 log.append("normalise %s: %s" % (fn.name, e))
 
+    _CUR_SENTINELS.clear()
+    once = {}
+    for st in tree.body:
+        if isinstance(st, ast.Assign) and len(st.targets) == 1 and isinstance(st.targets[0], ast.Name):
+            once.setdefault(st.targets[0].id, []).append(st.value)
+    for nm, vals in once.items():
+        if len(vals) == 1 and isinstance(vals[0], ast.Call) and isinstance(vals[0].func, ast.Name) and vals[0].func.id == "object" and not vals[0].args and not vals[0].keywords:
+            stores = sum(1 for n in ast.walk(tree) if isinstance(n, ast.Name) and n.id == nm and isinstance(n.ctx, (ast.Store, ast.Del)))
+            if stores == 1 and _marker_well_behaved(tree, nm):
+                _CUR_SENTINELS.add(nm)
+    SENTINELS[modname] = set(_CUR_SENTINELS)
     _module_tables(tree, stats)
     normalise()
     inl = Inliner(tree, modname, known, stats, log)
